@@ -10,6 +10,7 @@ import Stevia.Proofs.HashSetState
 import Stevia.Proofs.BytesRT
 import Stevia.Proofs.GenTreeOpen32
 import Stevia.Proofs.GenTreeOpen8
+import Stevia.Proofs.GenViewsFmt
 
 namespace Stevia.C04
 open Stevia
@@ -81,5 +82,32 @@ theorem translated_reopen_u8 (d : Rec α β) (m : TreeImage α β) (hm : m.recs.
   rw [Gen8.from_bytes_mut_eq]
   unfold Imp.openMut
   rw [if_neg (by omega)]
+
+/-- Byte level, through the translator: in the current source EVERY view constructor — read-only and mutable, of both
+    trees, of the hash set and of the array sets — cuts the caller's buffer at `size_of(header)`, guards the two parts with
+    checked casts and builds the handle from exactly those two parts (`View.split`; the translator refuses any further
+    statement or field, so a handle holds no derived state). Both views of the same bytes therefore see the same
+    header and the same records, and the two parts reassemble the buffer: nothing but the bytes is state. -/
+theorem translated_views_keep_no_state (H R : Nat) (b : ByteArray) :
+    GenV.avl32_from_bytes H R b = View.split H R b ∧ GenV.avl32_from_bytes_mut H R b = View.split H R b ∧
+    GenV.avl8_from_bytes H R b = View.split H R b ∧ GenV.avl8_from_bytes_mut H R b = View.split H R b ∧
+    GenV.hset_from_bytes H R b = View.split H R b ∧ GenV.hset_from_bytes_mut H R b = View.split H R b ∧
+    GenV.aset_from_bytes H R b = View.split H R b ∧ GenV.aset_from_bytes_mut H R b = View.split H R b ∧
+    (∀ a n, View.split H R b = some (a, n) → a ++ n = b) :=
+  ⟨GenV.avl32_from_bytes_eq H R b, GenV.avl32_from_bytes_mut_eq H R b, GenV.avl8_from_bytes_eq H R b,
+   GenV.avl8_from_bytes_mut_eq H R b, GenV.hset_from_bytes_eq H R b, GenV.hset_from_bytes_mut_eq H R b,
+   GenV.aset_from_bytes_eq H R b, GenV.aset_from_bytes_mut_eq H R b, fun _ _ h => (View.split_parts h).2.2.2.2.2⟩
+
+/-- Whatever the format readers of the model accept (`ofBytes`, the inverse of the layout used in the re-open theorems
+    above), the implementation's views accept: the bytes of every reachable state can be opened. -/
+theorem translated_views_open_the_format (ft : TreeFmt) (fh : HFmt) (fa : AFmt) (bs : Bytes) :
+    (∀ img, ft.ofBytes bs = some img → (View.split ft.hdrSize ft.recSize (View.ofList bs)).isSome) ∧
+    (∀ img, fh.ofBytes bs = some img → (View.split fh.hdrSize fh.recSize (View.ofList bs)).isSome) ∧
+    (∀ s, fa.ofBytes bs = some s → (View.split fa.pw fa.vsz (View.ofList bs)).isSome) :=
+  ⟨fun img h => View.tree_reader_accepts ft bs img h, fun img h => View.hset_reader_accepts fh bs img h,
+   fun s h => View.aset_reader_accepts fa bs s h⟩
+
+-- non-vacuity: a 24-byte header and two 12-byte records
+example : (View.split 24 12 (View.ofList (List.replicate 48 7))).isSome := by decide
 
 end Stevia.C04
